@@ -249,13 +249,20 @@ impl<'a, T> ChordsV2<'a, T> {
     }
 
     fn next_coord(&self) -> u16 {
-        let ret = self.next_coord.get();
-        let mut new = ret + 1;
-        if new > KEY_MAX + 50 {
-            new = KEY_MAX + 1;
+        loop {
+            let ret = self.next_coord.get();
+            let mut new = ret + 1;
+            if new > KEY_MAX + 50 {
+                new = KEY_MAX + 1;
+            }
+            self.next_coord.set(new);
+            // A chord that is still active keeps its coordinate until it is released;
+            // handing it out again would let the release of the newer chord release both.
+            // There are always fewer active chords than coordinates.
+            if !self.active_chords.iter().any(|ach| ach.coordinate == ret) {
+                return ret;
+            }
         }
-        self.next_coord.set(new);
-        ret
     }
 
     fn drain_inputs(&mut self, drainq: &mut SmolQueue, active_layer: u16) {
